@@ -48,7 +48,7 @@ func init() {
 		Run:            run,
 		Replay:         replay,
 		QuickBudget:    200,
-		ThoroughBudget: 3000,
+		ThoroughBudget: 1200,
 	})
 }
 
@@ -534,6 +534,11 @@ func (w *world) explore(t tcase, maxExec int) {
 		}
 		cur = w.execute(t, false)
 	}, func(x *explore.Exec) bool {
+		if c.Expired() {
+			// the internal deadline also ends an exploration that is under way (what was explored is counted)
+			c.Incomplete(fmt.Sprintf("%s: stopped at the internal deadline at bound %d", describe(t), t.Bound))
+			return false
+		}
 		c.Eval(1)
 		c.State(1)
 		c.Transition(cur.res.Steps)
